@@ -109,6 +109,9 @@ def jobs(prop, tier):
                      bounds='all 256 symbols x {send, start arbitration, info request}', **DEV))
         J.append(Job('C14', 'frame', 'C14_enhanced.cpp', defs={'H_FRAME': None}, unwind=10, unwindset={'cstrlen': 34, 'put_field': 34, 'vs_copy': 34, 'basic_ostringstreamIcSt11char_traitsIcESaIcEE3strEv': 34}, shape='K', timeout=900 if T else 250,
                      bounds='every well-formed unit (plain byte or two-byte frame of any command/data) from every arbitration state', **DEV))
+        for l in ((2, 3, 4) if T else (2,)):
+            J.append(Job('C14', 'stream%d' % l, 'C14_enhanced.cpp', defs={'H_STREAM': None, 'L': l}, unwind=l + 3, unwindset={'cstrlen': 34, 'put_field': 34, 'vs_copy': 34}, shape='R', timeout=3000 if T else 280,
+                         bounds='every stream of %d arbitrary bytes from every arbitration state, against a reference decoder written from docs/enhanced_proto.md' % l, **DEV))
         for l in ((2, 3) if T else (2,)):
             J.append(Job('C14', 'chunk%d' % l, 'C14_enhanced.cpp', defs={'H_CHUNK': None, 'L': l}, unwind=l + 2, unwindset={'cstrlen': 34, 'put_field': 34, 'vs_copy': 34, 'basic_ostringstreamIcSt11char_traitsIcESaIcEE3strEv': 34}, shape='R', timeout=3000 if T else 280,
                          bounds='every stream of %d arbitrary bytes, every split position, every initial arbitration state' % l, **DEV))
